@@ -754,7 +754,7 @@ def run(ctx):
     if tcp_mm:
         c, r, what = tcp_meta[tcp_mm[0] - len(idx)]
         ctx.cov["mismatches"] += len(tcp_mm)
-        ctx.broken("correspondence", "model C05 and the implementation disagree on %d real-TCP term(s); first: %s — %s"
+        ctx.broken("correspondence", "model C05 and the implementation disagree on %d real-TCP / sequence term(s); first: %s — %s"
                    % (len(tcp_mm), c["name"], what), {"case": dict(c, mode=c.get("mode", "tcp")), "observed": r})
     if mm:
         ctx.cov["mismatches"] += len(mm)
